@@ -79,6 +79,20 @@ def graph_invariants(gwy: Any, max_zones: int) -> list[tuple[str, str]]:
             if (hasattr(p, "idx") or type(p).__name__ == "DhwZone") and getattr(p, "tcs", None) is not None and id(p) not in reachable:
                 bad.append(("parent-zone-not-attached-to-its-controller", f"{d} -> {p} (tcs zones: {[z.id for z in p.tcs.zones]})"))
     for tcs in gwy.systems:
+        # 'one zone/role': a role of the hot-water subsystem (hot-water valve FA, heating valve F9) or of the system (appliance control FC)
+        # is held by at most one device - and by the one the parent names for it
+        for p, roles in ((tcs.dhw, (("FA", "hotwater_valve"), ("F9", "heating_valve"))), (tcs, (("FC", "appliance_control"),))):
+            if p is None:
+                continue
+            for rid, attr in roles:
+                # (relays only: the hot-water sensor is a child of the same zone under the same id FA; an OpenTherm bridge can be FC)
+                holders = [c for c in getattr(p, "childs", []) if getattr(c, "_child_id", None) == rid and getattr(c, "_parent", None) is p
+                           and (str(getattr(c, "id", ""))[:2] == "13" or rid == "FC")]
+                holders = list({id(h): h for h in holders}.values())  # (the same device listed twice is one holder)
+                named = getattr(p, attr, None)
+                if len(holders) > 1 or (holders and named is not None and named not in holders):
+                    bad.append(("role-held-by-two-devices", f"{p} role {rid}: children {[str(h) for h in holders]}, named {named}"))
+    for tcs in gwy.systems:
         parents = [tcs] + list(tcs.zones) + ([tcs.dhw] if tcs.dhw else [])
         for p in parents:
             for c in getattr(p, "childs", []):
